@@ -1,3 +1,3 @@
 SPECIFICATION Spec
-INVARIANTS DesignTrbl DesignDrop DesignPair DesignSwap Reflexive ColourRange
+INVARIANTS DesignTrbl DesignDrop DesignPair DesignSwap DesignShadow DesignFlex Reflexive ColourRange
 CHECK_DEADLOCK FALSE
